@@ -10,6 +10,11 @@ package datatransfer
 //@   pure VoucherResults, ReceivedCidsTotal, QueuedCidsTotal, SentCidsTotal, Stages, DataLimit
 //@   pure RequiresFinalization, InitiatorPaused, ResponderPaused, BothPaused, SelfPaused
 
+//@ interface TransferConfig
+//@   pure EventsCb, TransportOptions
+//@ func datatransfer.FromOptions {C17}
+//@   effectfree -- boundary: option closures are applied to a fresh config; only non-nilness of the result is assumed
+
 //@ interface Message
 //@   pure IsRequest, IsRestart, IsNew, IsUpdate, IsPaused, IsCancel, TransferID
 //@ interface Request
